@@ -308,6 +308,32 @@ def D27():
     return True, str(tr.doc)
 
 
+def _accepts(expr: str, seq: list[str]) -> bool:
+    s = Schema({"nodes": {"doc": {"content": expr}, "a": {}, "b": {}, "c": {}, "text": {}}})
+    m = s.nodes["doc"].content_match
+    for t in seq:
+        m = m.match_type(s.nodes[t])
+        if m is None:
+            return False
+    return m.valid_end
+
+
+def D28():
+    r = [_accepts("a | b{0,}", ["b", "a"]), _accepts("(a | b{0,}) c", ["b", "a", "c"]), _accepts("a | b{0,}", ["b", "b"]), _accepts("a{1,} b", ["a", "a", "b"])]
+    return r == [False, False, True, True], r
+
+
+def D29():
+    res = []
+    for e in ("a{0,1}*", "a{0,1}+", "(a b | c{0,1})+", "a{0,1}{1,}"):
+        try:
+            ok = _accepts(e, ["a", "a"]) if e != "(a b | c{0,1})+" else _accepts(e, ["a", "b", "c"])
+            res.append(ok)
+        except RecursionError:
+            res.append("RecursionError")
+    return res == [True, True, True, True], res
+
+
 ALL = {k: v for k, v in list(globals().items()) if k[0] == "D" and k[1:].isdigit()}
 
 if __name__ == "__main__":
